@@ -299,7 +299,11 @@ func (a *Act) chanSend(st *State, ch, v Val, chv ssa.Value, pos token.Pos) {
 		a.vc.oblige(name, "chan-send", a.props, a.pos(pos), st.guard, "false", "contract error in chaninv: "+err.Error())
 		return
 	}
+	n0 := len(a.vc.obls)
 	a.vc.oblige(name, "chan-send", a.props, a.pos(pos), st.guard, s, "channel invariant on send: "+ci.Text)
+	if len(a.vc.obls) > n0 && len(ci.OnlyProps) > 0 {
+		a.vc.obls[len(a.vc.obls)-1].OnlyProps = ci.OnlyProps
+	}
 }
 
 // countSend increments the engine ghost nsent(<channel key>): the number of values sent on that channel.
